@@ -25,50 +25,80 @@ def _eta(val, src, fieldnames, layouts):
     return all(_eta(v, ('fld', src, k), None, layouts) for k, v in got.items())
 
 
+def verdicts(ctx, sn, crate):
+    """[(type, good, detail, where)] for every `Clone` impl of `crate` among the bodies of suite `sn`"""
+    S = ctx.suite(sn)
+    out = []
+    layouts = {}
+    for k, v in S.types.items():
+        if v.get('dpath'):
+            layouts.setdefault(v['dpath'], v)
+    for b in list(S.bodies.values()):
+        if b.get('crate') != crate or b.get('impl_trait_dpath') not in CLONE or b.get('name') != 'clone':
+            continue
+        s = ctx.summary(sn, b['generic_path'], params=[Sym('self')], select=b['path'])
+        w = where_of(s)
+        short = b['generic_path'].split(' as ')[0].lstrip('<')
+        self_ty = (b.get('impl_self_concrete') or '')
+        # layout of the concrete self type (field names per variant)
+        lay = None
+        for k, v in S.types.items():
+            if v.get('dpath') and short.split('<')[0] == v['dpath'] and (not self_ty or k == self_ty):
+                lay = v
+                break
+        good = s.complete and bool(s.paths) and all(p.outcome == 'Ret' for p in s.paths)
+        detail = ''
+        if good and lay is not None and lay.get('kind') == 'enum':
+            names = [v['name'] for v in lay['variants']]
+            seen = set()
+            for p in s.paths:
+                d = p.state.assume.get(Sym('self'))
+                v = p.value
+                ok = v is not None and v[0] == 'adt' and isinstance(d, int) and 0 <= d < len(names) and v[2] == names[d] and not lay['variants'][d]['fields']
+                ok = ok or v == Sym('self')
+                good = good and ok
+                seen.add(d)
+                detail = detail or ('' if ok else 'variant %s cloned as %s' % (d, show(v)[:80]))
+            good = good and (len(seen) == len(names) or any(p.value == Sym('self') for p in s.paths))
+        elif good:
+            fns = [f['name'] for f in lay['variants'][0]['fields']] if lay is not None and lay.get('variants') else None
+            for p in s.paths:
+                ok = _eta(p.value, Sym('self'), fns, layouts)
+                good = good and ok
+                detail = detail or ('' if ok else 'clone returns %s' % show(p.value)[:200])
+        out.append((short, good, detail or str(s.notes[:2]), w))
+    return out
+
+
+_SELFTEST = {}
+
+
+def selftest(ctx):
+    """the rule must fire on the fixtures crate's two wrong `Clone` impls and stay silent on the correct twin (every run)"""
+    if 'done' in _SELFTEST:
+        return _SELFTEST['done']
+    import facts
+    v = {short.split('::')[-1]: good for short, good, _, _ in verdicts(ctx, 'fx:fx', 'fixtures')}
+    problems = []
+    for bad in ('FxCloneDropsOption', 'FxCloneResetsBytes'):
+        if v.get(bad) is not False:
+            problems.append('L-CLONE did not report fixtures::%s (%s)' % (bad, v.get(bad)))
+    if v.get('FxCloneGood') is not True:
+        problems.append('L-CLONE reported the field-wise fixtures::FxCloneGood (%s)' % v.get('FxCloneGood'))
+    if problems:
+        raise facts.MachineryError('fixture self-test failed: ' + '; '.join(problems))
+    _SELFTEST['done'] = v
+    return v
+
+
 def check(ctx, rep, rule):
+    rep.extra['fixture_selftest_clone'] = selftest(ctx)
     total = 0
     for sn in ctx.suite_names:
-        S = ctx.suite(sn)
         n = 0
-        layouts = {}
-        for k, v in S.types.items():
-            if v.get('dpath'):
-                layouts.setdefault(v['dpath'], v)
-        for b in list(S.bodies.values()):
-            if b.get('crate') != 'opaque_ke' or b.get('impl_trait_dpath') not in CLONE or b.get('name') != 'clone':
-                continue
-            s = ctx.summary(sn, b['generic_path'], params=[Sym('self')], select=b['path'])
-            w = where_of(s)
-            short = b['generic_path'].split(' as ')[0].lstrip('<')
-            self_ty = (b.get('impl_self_concrete') or '')
-            # layout of the concrete self type (field names per variant)
-            lay = None
-            for k, v in S.types.items():
-                if v.get('dpath') and short.split('<')[0] == v['dpath'] and (not self_ty or k == self_ty):
-                    lay = v
-                    break
-            good = s.complete and bool(s.paths) and all(p.outcome == 'Ret' for p in s.paths)
-            detail = ''
-            if good and lay is not None and lay.get('kind') == 'enum':
-                names = [v['name'] for v in lay['variants']]
-                seen = set()
-                for p in s.paths:
-                    d = p.state.assume.get(Sym('self'))
-                    v = p.value
-                    ok = v is not None and v[0] == 'adt' and isinstance(d, int) and 0 <= d < len(names) and v[2] == names[d] and not lay['variants'][d]['fields']
-                    ok = ok or v == Sym('self')
-                    good = good and ok
-                    seen.add(d)
-                    detail = detail or ('' if ok else 'variant %s cloned as %s' % (d, show(v)[:80]))
-                good = good and (len(seen) == len(names) or any(p.value == Sym('self') for p in s.paths))
-            elif good:
-                fns = [f['name'] for f in lay['variants'][0]['fields']] if lay is not None and lay.get('variants') else None
-                for p in s.paths:
-                    ok = _eta(p.value, Sym('self'), fns, layouts)
-                    good = good and ok
-                    detail = detail or ('' if ok else 'clone returns %s' % show(p.value)[:200])
+        for short, good, detail, w in verdicts(ctx, sn, 'opaque_ke'):
             n += int(good)
-            rep.ob(rule, 'Clone for %s returns the value it was given, field for field' % short, good, detail or str(s.notes[:2]), w, sn,
+            rep.ob(rule, 'Clone for %s returns the value it was given, field for field' % short, good, detail, w, sn,
                    sample='%s::clone(x) = x' % short)
         total += n
     rep.floor(rule, "Clone impls of the crate's own types reached by the analysed flows and by the harness's clone root", total, 33 * len(ctx.suite_names))
